@@ -96,7 +96,10 @@ impl Drop for Output {
         let _ = match self {
             Output::StdOut => Ok(()),
             Output::Named(target) => std::fs::remove_file(target),
-            Output::InPlace(target) => std::fs::remove_file(target),
+            // The in-place output is the input file: either a temporary copy, which is removed
+            // when `Input::Copied` is dropped, or - with `--no-copy` - the user's original file,
+            // which must never be removed.
+            Output::InPlace(_) => Ok(()),
         };
     }
 }
